@@ -128,6 +128,17 @@ func (w *World) AddNode(name string, id *m.Address, st config.Store) (*Node, err
 	return n, nil
 }
 
+// AddNodeWith builds a node from full options and adds it to the world.
+func (w *World) AddNodeWith(o NodeOpts) (*Node, error) {
+	n, err := NewNode(o)
+	if err != nil {
+		return nil, err
+	}
+	w.Nodes = append(w.Nodes, n)
+	w.ByIP[o.ID.IP] = n
+	return n, nil
+}
+
 // Connect registers a pair of virtual link ends through the real AddLink.
 // The routers learn each other's identity the way a completed handshake
 // leaves it: as a stored router record.
